@@ -562,7 +562,8 @@ def o_c07(rec, table=None):
                                              f"{tv} > tol {tol}"))
     elif st == 2:
         wid = b.ub - b.lb
-        if not np.all((b.lb <= b.ub) & (wid <= truth.eq_tol(b.lb, b.ub))):
+        if not np.all((b.lb <= b.ub)
+                      & (wid <= truth.CUSHION * truth.eq_tol(b.lb, b.ub))):
             out.append(V("status2_fixed", "status 2 but some variable is not "
                                           "fixed by the bounds"))
     elif st == 3:
